@@ -128,6 +128,9 @@ def _m(name, file, old, new, rule=None, count=1):
 
 
 MUTANTS = [
+    dict(name='for-body-comprehension-after-unregistering', rule='R-tr-name-scope', edits=[
+        dict(file=GEN2, old="    # Then visit all statements inside the loop\n    body = []\n    for body_stmt in node.body:\n      body.append( s.visit( body_stmt ) )\n", new="", count=1),
+        dict(file=GEN2, old="    s.loop_var_env.remove( loop_var_name )\n", new="    s.loop_var_env.remove( loop_var_name )\n    body = [ s.visit( body_stmt ) for body_stmt in node.body ]\n", count=1)]),
     _m('countdown-without-wrap-guard', VB2, "      guard = f\" && {loop_var} <= {start}\"", "      guard = ''", 'R-tr-for'),
     _m('countdown-guard-compares-with-end', VB2, "      guard = f\" && {loop_var} <= {start}\"", "      guard = f\" && {loop_var} <= {end}\"", 'R-tr-for'),
     _m('negative-constant-step-emitted-as-translated', VB2, "        step_abs = str( -int( node.step._value ) )", "        pass", 'R-tr-for'),
@@ -411,6 +414,8 @@ MUTANTS = [
 ]
 
 EQUIV = [
+    _m('for-body-visited-by-comprehension', GEN2, "    # Then visit all statements inside the loop\n    body = []\n    for body_stmt in node.body:\n      body.append( s.visit( body_stmt ) )\n", "    # Then visit all statements inside the loop\n    body = [ s.visit( body_stmt ) for body_stmt in node.body ]\n"),
+    _m('for-body-visited-by-map', GEN2, "    # Then visit all statements inside the loop\n    body = []\n    for body_stmt in node.body:\n      body.append( s.visit( body_stmt ) )\n", "    # Then visit all statements inside the loop\n    body = list( map( s.visit, node.body ) )\n"),
     _m('negative-constant-step-by-abs', VB2, "        step_abs = str( -int( node.step._value ) )", "        step_abs = str( abs( int( node.step._value ) ) )"),
     dict(name='for-begin-end-condition-in-a-local', edits=[
         dict(file=VB2, old="    begin    = ' begin' if s.count_stmts( node.body ) > 1 else ''\n\n    cmp_op", new="    multi    = s.count_stmts( node.body ) > 1\n    begin    = ' begin' if multi else ''\n\n    cmp_op", count=1),
